@@ -131,6 +131,15 @@ theorem chk_mismatch {W : Colls} {T : Types} (s : AggState) (hc : CInv W T s.chk
       | value v =>
         obtain ⟨m, hm⟩ := hmis s.chk.kind (at_.descKind (.value v)) (bt.descKind (.instance t))
         exact ⟨m, by simp only [isSubtypeInner, hm]⟩
+      | type ty =>
+        cases ty with
+        | func f =>
+          obtain ⟨m, hm⟩ := hmis s.chk.kind (at_.descKind (.type (.func f))) (bt.descKind (.instance t))
+          exact ⟨m, by simp only [isSubtypeInner, hm]⟩
+        | value v =>
+          obtain ⟨m, hm⟩ := hmis s.chk.kind (at_.descKind (.type (.value v))) (bt.descKind (.instance t))
+          exact ⟨m, by simp only [isSubtypeInner, hm]⟩
+        | _ => cases la
       | _ => cases la
     · cases b with
       | func f =>
@@ -139,6 +148,15 @@ theorem chk_mismatch {W : Colls} {T : Types} (s : AggState) (hc : CInv W T s.chk
       | value v =>
         obtain ⟨m, hm⟩ := hmis s.chk.kind (at_.descKind (.instance t)) (bt.descKind (.value v))
         exact ⟨m, by simp only [isSubtypeInner, hm]⟩
+      | type ty =>
+        cases ty with
+        | func f =>
+          obtain ⟨m, hm⟩ := hmis s.chk.kind (at_.descKind (.instance t)) (bt.descKind (.type (.func f)))
+          exact ⟨m, by simp only [isSubtypeInner, hm]⟩
+        | value v =>
+          obtain ⟨m, hm⟩ := hmis s.chk.kind (at_.descKind (.instance t)) (bt.descKind (.type (.value v)))
+          exact ⟨m, by simp only [isSubtypeInner, hm]⟩
+        | _ => cases lb
       | _ => cases lb
   obtain ⟨m, hm⟩ := hinner
   have hsub : isSubtype (checkFuel at_ bt) s.chk at_ a bt b = (.err m, s.chk) := by
@@ -303,8 +321,8 @@ theorem nstate_keep {s0 : AggState} {F0 : Forest} (hT : NState W types S e s0 F0
   have htf : tf = ts := heq tf hFn
   subst htf
   refine ⟨hms.toNStep, tf, hFn, ?_, ?_⟩
-  · have hk : isEqKind tf = true := eqKind_unfoldLeaf lk hts
-    rw [meet_eqKind tf tf hk]; simp
+  · have hk : isEqK tf = true := eqKind_unfoldLeaf lk hts
+    rw [meet_eqK tf tf hk]; simp
   · rw [setF_self F0 n tf hFn]
     refine ⟨⟨hA, hT.ni.iwf, hT.ni.sb, ?_⟩, hT.nested, hT.mutE, ⟨ti, hti, m, hm⟩, hT.nd⟩
     intro i i' hg
@@ -316,6 +334,11 @@ theorem nstate_keep {s0 : AggState} {F0 : Forest} (hT : NState W types S e s0 F0
       cases sk with
       | func f => simp [GTy.mk', ItemKind.ty] at this
       | value v => simp [GTy.mk', ItemKind.ty] at this
+      | type ty =>
+        cases ty with
+        | func f => simp [GTy.mk', ItemKind.ty] at this
+        | value v => simp [GTy.mk', ItemKind.ty] at this
+        | _ => cases lk
       | _ => cases lk
     · exact hg
 
@@ -531,6 +554,11 @@ theorem mergeExport_nstep {fuel : Nat} (hIH : MergeSpec W types fuel) {d : Nat} 
         cases tk with
         | func _ => exact hb
         | value _ => exact hb
+        | type ty =>
+          cases ty with
+          | func _ => exact hb
+          | value _ => exact hb
+          | _ => cases ltk
         | _ => cases ltk
       clear hb
       simp only [bind_ok, hr, Except.ok.injEq, Prod.mk.injEq] at hb'
@@ -567,6 +595,15 @@ theorem mergeExport_nstep {fuel : Nat} (hIH : MergeSpec W types fuel) {d : Nat} 
       | value _ =>
         simp only [run_bind, h1, run_getAgg, withCtx, h2] at hb
         cases hb
+      | type ty =>
+        cases ty with
+        | func _ =>
+          simp only [run_bind, h1, run_getAgg, withCtx, h2] at hb
+          cases hb
+        | value _ =>
+          simp only [run_bind, h1, run_getAgg, withCtx, h2] at hb
+          cases hb
+        | _ => cases ltk
       | _ => cases ltk
     · -- target instance, source leaf
       exfalso
@@ -579,6 +616,15 @@ theorem mergeExport_nstep {fuel : Nat} (hIH : MergeSpec W types fuel) {d : Nat} 
       | value _ =>
         simp only [run_bind, h1, run_getAgg, withCtx, h2] at hb
         cases hb
+      | type ty =>
+        cases ty with
+        | func _ =>
+          simp only [run_bind, h1, run_getAgg, withCtx, h2] at hb
+          cases hb
+        | value _ =>
+          simp only [run_bind, h1, run_getAgg, withCtx, h2] at hb
+          cases hb
+        | _ => cases lk
       | _ => cases lk
     · -- both instances: merge on a copy
       obtain ⟨copy, hcopy⟩ : ∃ copy, s0.agg.types.interfaces[t]? = some copy :=
